@@ -451,6 +451,34 @@ theorem run_dtx_bound (c : Cfg) (hg : GoodGeom c) (hq : 1 ≤ c.q ∧ c.q ≤ 48
   · have := run_silk_bound c hg seg st (fun o ho => ⟨by have := hone o ho; rw [hsu] at this; exact this, hok o ho⟩) hall
     omega
 
+/-! ### a DTX packet has one or two bytes -/
+
+theorem dtxPacketLen_range (n : Nat) : 1 ≤ dtxPacketLen n ∧ dtxPacketLen n ≤ 2 := by
+  unfold dtxPacketLen; split <;> omega
+
+/-- The length carried by a DTX packet of the skeleton is `dtxPacketLen` of its frame count: 1 or 2. -/
+theorem encodeCall_dtx_len (c : Cfg) (st : St) (o : CallOr) (n : Nat) (h : (encodeCall c st o).2.1 = .dtx n) :
+    n = dtxPacketLen (nSub c o.mode) ∧ 1 ≤ n ∧ n ≤ 2 := by
+  obtain ⟨hr, hlen⟩ := encodeCall_dtx_regular c st o n h
+  rw [(encodeCall_regular c st o hr hlen).2] at h
+  have h' := finalPkt_dtx _ _ _ _ h
+  unfold pktOf at h'
+  split at h'
+  · cases h'
+    exact ⟨rfl, dtxPacketLen_range _⟩
+  · cases h'
+
+theorem pkts_dtx_len (c : Cfg) : ∀ (ors : List CallOr) (st : St) (n : Nat), Pkt.dtx n ∈ pkts c st ors → 1 ≤ n ∧ n ≤ 2 := by
+  intro ors
+  induction ors with
+  | nil => intro st n h; cases h
+  | cons o os ih =>
+    intro st n h
+    rw [pkts_cons] at h
+    rcases List.mem_cons.1 h with h | h
+    · exact (encodeCall_dtx_len c st o n h.symm).2
+    · exact ih _ n h
+
 /-! ### The in-DTX query along a run -/
 
 theorem run_cons (c : Cfg) (st : St) (o : CallOr) (os : List CallOr) :
